@@ -1,11 +1,21 @@
 package models
 
-import "github.com/lightningnetwork/lnd/lnwire"
+import (
+	"math"
+	"math/bits"
+
+	"github.com/lightningnetwork/lnd/lnwire"
+)
 
 const (
 	// maxFeeRate is the maximum fee rate that we allow. It is set to allow
 	// a variable fee component of up to 10x the payment amount.
 	maxFeeRate = 10 * feeRateParts
+
+	// maxPropFee is the value at which the absolute proportional fee
+	// saturates. It leaves enough room for the base fee to be added without
+	// overflowing an int64.
+	maxPropFee = math.MaxInt64 - math.MaxInt32 - 1
 )
 
 type InboundFee struct {
@@ -47,7 +57,24 @@ func (i *InboundFee) CalcFee(amt lnwire.MilliSatoshi) int64 {
 
 	// Calculate proportional component. To keep the integer math simple,
 	// positive fees are rounded down while negative fees are rounded up.
-	fee += rate * int64(amt) / feeRateParts
+	// Even with the capped rate, the product of rate and amount doesn't fit
+	// into an int64 for large amounts, so it is computed with 128 bits on
+	// the absolute values and saturates if the result is out of range.
+	absRate := uint64(rate)
+	if rate < 0 {
+		absRate = uint64(-rate)
+	}
 
-	return fee
+	propFee := uint64(maxPropFee)
+	hi, lo := bits.Mul64(absRate, uint64(amt))
+	if hi < feeRateParts {
+		quo, _ := bits.Div64(hi, lo, feeRateParts)
+		propFee = min(quo, propFee)
+	}
+
+	if rate < 0 {
+		return fee - int64(propFee)
+	}
+
+	return fee + int64(propFee)
 }
